@@ -390,6 +390,10 @@ func TestSystematic(t *testing.T) {
 				}
 			}
 		}
+		for _, b := range smbStringTailFaults(vf.Thorough()) {
+			s.Class("string-tail-fault")
+			yield(inputCase{"smb.Message.Unmarshal", b, "string-tail-fault"})
+		}
 	}, callTotal, nontrivial)
 }
 
